@@ -373,8 +373,10 @@ class Conn:
         avail = len(self.pending) - self.pos
         return min(want, avail if avail <= 1 else (avail + 1) // 2)
 
-    def recv_into(self, view):
-        k = self._segment(len(view))
+    def recv_into(self, view, nbytes=0, flags=0):
+        # socket.recv_into contract: nbytes == 0 means "up to len(buffer)"
+        want = nbytes if nbytes else len(view)
+        k = self._segment(want)
         if k:
             view[:k] = self.pending[self.pos : self.pos + k]
         self.pos += k
